@@ -6,7 +6,7 @@
 (* against Ideal (three-valued) outside the named deviations, and exports   *)
 (* one JSON line per pattern for replay against the real matcher.           *)
 (***************************************************************************)
-EXTENDS Pattern, TLC, Json
+EXTENDS Tokens, TLC, Json
 
 CONSTANTS MaxLen, Sigma, Export
 
@@ -19,7 +19,8 @@ MkUrl(scheme, userinfo, host, port, path) ==
              (IF userinfo = "" THEN <<>> ELSE Chars(userinfo) \o <<"@">>)
       h == Chars(host) IN
   [url |-> pre \o h \o (IF port = "" THEN <<>> ELSE <<":">> \o Chars(port)) \o Chars(path),
-   hs |-> Len(pre) + 1, he |-> Len(pre) + Len(h)]
+   hs |-> Len(pre) + 1, he |-> Len(pre) + Len(h),
+   scheme |-> scheme, alias |-> "script", src |-> <<>>, tp |-> TRUE]
 
 Urls == <<
   MkUrl("https", "", "ab.ba", "", "/ab"),
@@ -47,7 +48,8 @@ Urls == <<
   MkUrl("https", "", "abab.ba", "", "/x"),
   MkUrl("https", "", "ab.ba.a", "", "/ab.ba.a/"),
   MkUrl("https", "", "ab.ba", "", "/AB/Ba"),
-  MkUrl("https", "", "b.a", "", "/A.B/b?A=B")
+  MkUrl("https", "", "b.a", "", "/A.B/b?A=B"),
+  MkUrl("https", "", "b.a", "", "/bab")
 >>
 
 Pats == [left : {"none", "pipe", "dpipe"}, body : SeqsUpTo(Sigma, 1, MaxLen), right : BOOLEAN]
@@ -66,9 +68,16 @@ Refines ==
      \/ ImplMatch(pat, Urls[k]) \in IdealMatch(pat, Urls[k])
      \/ DevNames(pat, Urls[k]) # {}
 
+\* C01 (M1): index completeness at rule level.  Whatever token of the rule the list-wide histogram
+\* picks as its bucket, a request the rule's matcher accepts probes that bucket.  Checked for every
+\* pattern of the universe (degenerate spellings included; only the /regex/ form has no tokens).
+AsRule == [R0 EXCEPT !.left = pat.left, !.body = pat.body, !.right = pat.right]
+RegexForm == Len(pat.body) > 1 /\ pat.body[1] = "/" /\ pat.body[Len(pat.body)] = "/"
+TokensSafe == RegexForm \/ \A k \in DOMAIN Urls : IndexComplete(AsRule, Urls[k])
+
 \* M2 export: one line per non-degenerate pattern
 ExportLine ==
-  ToJson([k |-> "c02", rule |-> PrintPat(pat),
+  ToJson([k |-> "c02", rule |-> PrintPat(pat), tokens |-> RuleTokenGroups(AsRule),
           allowed |-> [k \in DOMAIN Urls |-> IdealMatch(pat, Urls[k])],
           model |-> [k \in DOMAIN Urls |-> ImplMatch(pat, Urls[k])],
           devs |-> [k \in DOMAIN Urls |-> DevNames(pat, Urls[k])]])
